@@ -23,13 +23,14 @@ for d in sorted(glob.glob(os.path.join(scratch, "C??", "change*"))):
         return m.group(2).strip() if m else ""
     title = notes.strip().splitlines()[0].lstrip("# ").strip() if notes.strip() else ""
     files = sorted(set(re.findall(r"^\+\+\+ b/(\S+)", open(os.path.join(d, "patch.diff")).read(), re.M)))
-    caught = sorted(p for p, c in res["checks"].items() if c["exit"] == 1 and any(l.startswith("VIOLATION") for l in c["lines"]))
+    caught = sorted(p for p, c in res["checks"].items() if c["exit"] == 1)
     how = {}
     for p, c in res["checks"].items():
         v = [l for l in c["lines"] if l.startswith("VIOLATION")]
         kinds = set()
         for l in v:
             kinds.add("bounded" if "/b_" in l else ("deductive (regression, no input)" if "no-failing-input-found" in l else "deductive (refuted)"))
+        if c["exit"] == 1 and not kinds: kinds.add("violation reported (the captured lines hold only the known-finding lines that precede it)")
         how[p] = {"exit": c["exit"], "seconds": c["seconds"], "kinds": sorted(kinds), "first_lines": c["lines"][:3], "detail": c.get("detail", [])[:2]}
     meta = {"property": pid, "change": ch, "title": title, "files_touched": files,
             "breaks": section("clause|breaks|broken")[:1500],
